@@ -16,6 +16,7 @@ type vCsrfCfg struct {
 	singleUse bool
 	stub      bool // external storage stub (with fault injection) instead of the memory store
 	session   bool // tokens kept in the session store (Config.Session)
+	sessOnly  bool // CookieSessionOnly (the cookie has no expiry; the stored token still has)
 }
 
 var vC16Catalogue = []vCsrfCfg{
@@ -27,6 +28,7 @@ var vC16Catalogue = []vCsrfCfg{
 	/*5*/ {trusted: []string{"http://*.a.io", "https://t.io"}, singleUse: true},
 	/*6*/ {session: true},
 	/*7*/ {session: true, singleUse: true},
+	/*8*/ {sessOnly: true},
 }
 
 type vCsrfStore struct {
@@ -104,6 +106,7 @@ func VH_C16_unsafe(caseID int) {
 	ntok := 0
 	cfg := Config{TrustedOrigins: cc.trusted, SingleUseToken: cc.singleUse, IdleTimeout: 10 * time.Second,
 		KeyGenerator: func() string { ntok++; return "tok" + strconv.Itoa(ntok) }}
+	cfg.CookieSessionOnly = cc.sessOnly
 	var store *vCsrfStore
 	if cc.stub {
 		store = &vCsrfStore{data: map[string][]byte{}, exp: map[string]int64{}}
